@@ -78,6 +78,107 @@ def rdet3(a, b, c):
 def R(o): return [v.r for v in o]
 def pairs(n): return [(i, j) for i in range(n) for j in range(i + 1, n)]
 
+# ------------------------------------------------------------------ lemma chains over one rounding-erased execution
+class Chain:
+    """Monolithic nlsat queries over 6-9 inputs with square roots are erratic (3 s or > 200 s for the same formula), so the harder identities are
+    proved as chains of small steps over ONE symbolic execution of the compiled function.  A step proves a formula over the execution's own
+    terms from explicitly listed hypotheses / earlier steps, optionally after GENERALISATION: listed sub-terms are replaced by fresh reals (if the
+    generalised implication is valid, so is every instance of it - sound for 'unsat'; a generalised counterexample means nothing and is never reported).
+    User-facing goals fall back to the direct query over all hypotheses (with native replay) when the chain does not close, so a defect in the
+    code still surfaces as a reproduced VIOLATION."""
+    def __init__(s, S, fname, name=None, pre=None, bounds='', mandatory=True, timeout=None, extra_hyps=None, ins=None, witness=True, direct_solver='nra', witness_at=None):
+        s.S = S; s.direct_solver = direct_solver; s.fname = fname; s.name = name or 'c12.' + fname; s.prefn = pre; s.mandatory = mandatory; s.tm = timeout or S.cap(60, 200)
+        s.fn = U.fns[fname]; s.facts = {}; s.nf = 0
+        try: s.res = sym_call(U, fname, ins=ins, mode='real')
+        except Unsupported as e:
+            S.rec(name=s.name, kind='encode', result='unsupported', status='not-encoded', note=str(e), mandatory=mandatory, functions=[fname])
+            if mandatory: S.inconclusive.append('%s [not encoded: %s]' % (s.name, e))
+            s.res = None; return
+        p = pre(s.res.ins) if pre else []
+        s.pre = list(p) if isinstance(p, (list, tuple)) else [p]
+        s.extra = list(extra_hyps(s.res)) if extra_hyps else []
+        s.base = input_wellformed(s.fn, s.res.ins) + s.pre + s.extra + s.res.axioms
+        s.i = s.res.ins; s.o = s.res.outs; s.sq = list(getattr(s.res.ex, 'sqrt_log', []))
+        s.fnlist = ['w_%s -> %s' % (fname, s.fn.body.strip().replace('\n', ' ')[:160])]
+        s.binfo = bounds + '; ll=' + U.ll_sha()
+        s.vars = [t for row in s.res.ins for t in row]
+        if witness: S.prove(s.name + '.witness', z3.BoolVal(False), s.base + (list(witness_at(s.res.ins)) if witness_at else []),       # witness_at: a point at which the hypotheses are satisfiable
+                             timeout=S.cap(20, 60), kind='witness', functions=s.fnlist, bounds=s.binfo, expect='sat', mandatory=False)
+    def sqrt_ax(s, k):
+        """the defining axiom of the k-th executed square root: (argument, variable, [variable >= 0, variable^2 == argument])"""
+        A, y = s.sq[k]; return A, y, [y >= 0, y * y == A]
+    def _gen(s, terms, gen):
+        sub = []
+        for g in gen:
+            s.nf += 1; sub.append((g, z3.Real('gen!%d' % s.nf)))
+        out = []
+        for t in terms:
+            for pr in sub: t = z3.substitute(t, pr)          # sequentially, in the listed order (list enclosing terms first)
+            out.append(t)
+        return out
+    def _hyps(s, use, hyps):
+        hy = list(s.base) if isinstance(hyps, str) else list(hyps)          # hyps='base': every hypothesis of the execution (precondition, axioms)
+        for u in use:
+            if u not in s.facts: return None
+            hy.append(s.facts[u])
+        return hy
+    def lemma(s, label, goal, use=(), hyps=(), gen=(), timeout=None, solver='nra'):
+        """intermediate step: proved (possibly generalised) from the listed hypotheses only; becomes available as fact `label`"""
+        oname = '%s.lemma.%s' % (s.name, label); hy = s._hyps(use, hyps)
+        if hy is None:
+            s.S.rec(name=oname, kind='lemma', functions=s.fnlist, bounds=s.binfo, solver='-', result='skipped', time_s=0.0, status='inconclusive', mandatory=s.mandatory, note='an earlier step of the chain is missing')
+            if s.mandatory: s.S.inconclusive.append(oname + ' [earlier step missing]')
+            return False
+        tt = s._gen(hy + [goal], gen)
+        r, m = s.S.prove(oname, tt[-1], tt[:-1], timeout=timeout or s.S.cap(20, 60), solver=solver, kind='lemma', functions=s.fnlist, mandatory=s.mandatory,
+                         bounds=s.binfo + ('; generalised over %d sub-terms' % len(gen) if gen else ''), replay=lambda m_: ('no-replay (lemma over internal terms)', {}))
+        if r == 'unsat': s.facts[label] = goal; return True
+        return False
+    def _final(s, oname, goal, kind, use, hyps, gen, spec_fn, timeout, solver):
+        hy = s._hyps(use, hyps) if (use or hyps or gen) else None
+        if hy is not None:
+            tt = s._gen(hy + [goal], gen)
+            try: r, m, dt, used = s.S.query(tt[:-1] + [z3.Not(tt[-1])], timeout or s.S.cap(20, 60), solver)
+            except z3.Z3Exception: r, dt, used = 'unknown', 0.0, solver
+            if r == 'unsat':
+                s.S.rec(name=oname, kind=kind, functions=s.fnlist, bounds=s.binfo + '; via lemma chain' + (' generalised over %d sub-terms' % len(gen) if gen else ''), solver=used, result=r, time_s=round(dt, 3),
+                        status='discharged', mandatory=s.mandatory, note='uses ' + ','.join(use))
+                return True
+        # the chain did not close: direct query over all hypotheses, counterexamples replayed natively
+        s.S._prove_known(oname, goal, s.base, s.res, (), timeout=s.tm, solver=s.direct_solver, kind=kind, functions=s.fnlist, bounds=s.binfo, spec_fn=spec_fn, pre_fn=s.prefn,
+                         unit=U, fname=s.fname, mode='real', vars_=s.vars, mandatory=s.mandatory)
+        return False
+    def goals(s, spec, recipes=None, timeout=None, solver='nra'):
+        """spec(i, o) -> [(label, RGoal)] as for check_fn; recipes[label] = dict(use=[...], hyps=[...], gen=[...]) (labels without a recipe: direct query)"""
+        for label, g in spec(s.i, s.o):
+            rc = (recipes or {}).get(label, {})
+            s._final('%s.%s' % (s.name, label), goal_term(g), 'spec', rc.get('use', ()), rc.get('hyps', ()), rc.get('gen', ()), (spec, label), timeout, solver)
+    def side(s, recipe=None, timeout=None, solver='nra'):
+        """the executor's own obligations (sqrt of a negative, division by zero ...), one by one; recipe(kind, descr, cond, k) -> dict(use, hyps, gen) | None"""
+        for k, (kind, cond, d) in enumerate(s.res.obligations):
+            rc = (recipe(kind, d, cond, k) if recipe else None) or {}
+            s._final('%s.%s[%s]#%d' % (s.name, kind, d[:60], k), z3.Not(cond), kind, rc.get('use', ()), rc.get('hyps', ()), rc.get('gen', ()), None, timeout, solver)
+def normalize_shape(C, k, V, out, tag, pos_use=(), pos_hyps=(), gen=()):
+    """the code's k-th square root is sqrt(V.V) and `out` (real terms) is V / sqrt(V.V): establishes facts  tag.arg: argument == V.V,  tag.spos: root > 0
+    (given fact(s) pos_use / hypotheses pos_hyps that imply V.V > 0 literally),  tag.out<j>: out[j] * root == V[j],  tag.unit: out.out == 1.
+    gen: sub-terms of V (earlier outputs) to generalise in the two linking steps.  Returns the root variable."""
+    A, y, ax = C.sqrt_ax(k); VV = rdot(V, V); outs = ['%s.out%d' % (tag, j) for j in range(len(V))]
+    C.lemma(tag + '.arg', A == VV, gen=gen)
+    C.lemma(tag + '.spos', y > 0, use=[tag + '.arg'] + list(pos_use), hyps=ax + list(pos_hyps), gen=[A, VV])
+    for j in range(len(V)): C.lemma(outs[j], out[j] * y == V[j], use=[tag + '.spos'], gen=gen)
+    C.lemma(tag + '.unit', rdot(out, out) == 1, use=outs + [tag + '.spos', tag + '.arg'], hyps=ax, gen=[A] + list(out) + list(V))
+    return y
+def along(C, tag, out, V, y, T, label, gen_extra=()):
+    """fact label: (out . T) * root == V . T   from tag.out<j> (bilinear step, every vector generalised)"""
+    C.lemma(label, rdot(out, T) * y == rdot(V, T), use=['%s.out%d' % (tag, j) for j in range(len(V))], gen=list(out) + list(V) + [x for x in T if not z3.is_const(x)] + list(gen_extra))
+def cs_lemma(C, x, y):
+    """fact cauchy-schwarz: -1 <= x.y <= 1 for unit x, y, through Lagrange's identity (x.x)(y.y) - (x.y)^2 = sum of the squared 2x2 minors"""
+    D = rdot(x, y); xx = rdot(x, x); yy = rdot(y, y); mn = [x[p] * y[q] - x[q] * y[p] for p, q in pairs(len(x))]
+    sq = sum((m_ * m_ for m_ in mn), z3.RealVal(0))
+    assert all(any(h.eq(p_) for p_ in C.pre) for h in (xx == 1, yy == 1))
+    C.lemma('lagrange', xx * yy - D * D == sq)
+    C.lemma('cauchy-schwarz', z3.And(D >= -1, D <= 1), use=['lagrange'], hyps=[xx == 1, yy == 1], gen=[D, xx, yy] + mn)
+
 # ------------------------------------------------------------------ core functions, rounding-erased
 def job_core_real(t, L):
     s = '_v%d_%s' % (L, t)
@@ -118,7 +219,15 @@ def job_core_real(t, L):
             return g
         S.check_fn(U, 'refract' + s, lambda i, o: [g for g in snell(i, o) if g[0] != 'unit'], pre_t, mode='real', timeout=tm, name='c12.refract%s.transmit' % s, bounds='unit I, unit N, eta > 0, k >= 0',
                    mutant=lambda i, o: [('m', RGoal('ge', rdot(R(o[0]), i[1]), 0))])
-        S.check_fn(U, 'refract' + s, lambda i, o: [g for g in snell(i, o) if g[0] == 'unit'], pre_t, mode='real', timeout=S.cap(150, 400), solver='qfnra', name='c12.refract%s.transmit' % s, bounds='unit I, unit N, eta > 0, k >= 0', side=False, witness=False)
+        C = Chain(S, 'refract' + s, name='c12.refract%s.transmit' % s, pre=pre_t, timeout=S.cap(150, 400), bounds='unit I, unit N, eta > 0, k >= 0', witness=False, direct_solver='qfnra')
+        if C.res is not None:       # |r|^2 = eta^2 |I|^2 - 2 eta c d + c^2 |N|^2 with c = eta d + sqrt(k), d = N.I;  = eta^2 (1 - d^2) + k = 1 for unit I, N
+            I, N, eta = C.i[0], C.i[1], C.i[2][0]; r = R(C.o[0]); A, sv, ax = C.sqrt_ax(0); d = rdot(N, I); c_ = eta * d + sv; f = [eta * I[k] - c_ * N[k] for k in range(L)]
+            II = rdot(I, I); NN = rdot(N, N); rr = rdot(r, r); ff = rdot(f, f)
+            C.lemma('k', A == 1 - eta * eta * (1 - d * d))
+            for k in range(L): C.lemma('out%d' % k, r[k] == f[k], hyps=C.pre[3:])       # under k >= 0 the select takes the formula branch
+            C.lemma('rr', rr == ff, use=['out%d' % k for k in range(L)], gen=r + f)
+            C.lemma('expand', ff == eta * eta * II - 2 * eta * c_ * d + c_ * c_ * NN, gen=[c_])
+            C.goals(lambda i, o: [g for g in snell(i, o) if g[0] == 'unit'], {'unit': dict(use=['k', 'rr', 'expand'], hyps=ax + C.pre[:2], gen=[rr, ff, A, II, NN, d])})
         # (k < 0 cannot be examined in real mode: the model's sqrt axiom y*y == k has no real solution; the bit-precise jobs fp_* decide that half)
         # gtx norm
         S.check_fn(U, 'length2' + s, lambda i, o: [('sum-of-squares', REq(o[0][0].r, rdot(i[0], i[0])))], mode='real', timeout=tm, bounds='all real vectors')
@@ -190,8 +299,10 @@ def job_angle(t, L):
     def run(S):
         tm = S.cap(90, 300)
         unit2 = lambda i: [rdot(i[0], i[0]) == 1, rdot(i[1], i[1]) == 1]
-        S.check_fn(U, 'angle' + s, lambda i, o: [('acos-of-dot', REq(o[0][0].r, acos_of(rdot(i[0], i[1]))))], unit2, mode='real', timeout=tm, solver='qfnra' if L == 4 else 'z3', extra_hyps=acos_link(lambda i: rdot(i[0], i[1])),
-                   bounds='unit x, y; acos only as a function (congruence)', mutant=lambda i, o: [('m', REq(o[0][0].r, acos_of(rdot(i[0], i[0]))))])
+        C = Chain(S, 'angle' + s, pre=unit2, timeout=tm, extra_hyps=acos_link(lambda i: rdot(i[0], i[1])), bounds='unit x, y; acos only as a function (congruence)')
+        if C.res is not None:
+            cs_lemma(C, C.i[0], C.i[1]); C.side()
+            C.goals(lambda i, o: [('acos-of-dot', REq(o[0][0].r, acos_of(rdot(i[0], i[1]))))], {'acos-of-dot': dict(use=['cauchy-schwarz'], hyps='base')})
     return run
 def job_gtx3(t):
     def run(S):
@@ -199,15 +310,17 @@ def job_gtx3(t):
         S.check_fn(U, 's_angle_' + t, lambda i, o: [('acos-of-product', REq(o[0][0].r, acos_of(i[0][0] * i[0][1])))], lambda i: [i[0][0] * i[0][0] == 1, i[0][1] * i[0][1] == 1], mode='real', timeout=tm,
                    extra_hyps=acos_link(lambda i: i[0][0] * i[0][1]), bounds='x, y in {-1, 1}')
         unit2 = lambda i: [rdot(i[0], i[0]) == 1, rdot(i[1], i[1]) == 1]
-        def oa2(i, o):
-            x, y = i[0], i[1]; A = acos_of(rdot(x, y)); cr = x[0] * y[1] - x[1] * y[0]
-            return [('signed-acos', REq(o[0][0].r, z3.If(cr > 0, A, -A)))]
-        S.check_fn(U, 'oangle2_' + t, oa2, unit2, mode='real', timeout=tm, extra_hyps=acos_link(lambda i: rdot(i[0], i[1])), bounds='unit x, y in the plane; counter-clockwise positive',
-                   mutant=lambda i, o: [('m', REq(o[0][0].r, z3.If(i[0][0] * i[1][1] - i[0][1] * i[1][0] < 0, acos_of(rdot(i[0], i[1])), -acos_of(rdot(i[0], i[1])))))])
         def oa3(i, o):
             x, y, ref = i; A = acos_of(rdot(x, y)); sgn = rdot(ref, rcross(x, y))
             return [('signed-acos', REq(o[0][0].r, z3.If(sgn < 0, -A, A)))]
-        S.check_fn(U, 'oangle3_' + t, oa3, unit2, mode='real', timeout=tm, extra_hyps=acos_link(lambda i: rdot(i[0], i[1])), bounds='unit x, y; any ref; sign of dot(ref, cross(x,y))')
+        def oa2(i, o):
+            x, y = i[0], i[1]; A = acos_of(rdot(x, y)); cr = x[0] * y[1] - x[1] * y[0]
+            return [('signed-acos', REq(o[0][0].r, z3.If(cr > 0, A, -A)))]
+        for fn_, sp_, bd_ in (('oangle2_', oa2, 'unit x, y in the plane; counter-clockwise positive'), ('oangle3_', oa3, 'unit x, y; any ref; sign of dot(ref, cross(x,y))')):
+            C = Chain(S, fn_ + t, pre=unit2, timeout=tm, extra_hyps=acos_link(lambda i: rdot(i[0], i[1])), bounds=bd_)
+            if C.res is not None:
+                cs_lemma(C, C.i[0], C.i[1]); C.side()
+                C.goals(sp_, {'signed-acos': dict(use=['cauchy-schwarz'], hyps='base')})
         # cross, exterior and mixed product
         def cspec(i, o):
             a_, b_ = i; c_ = R(o[0]); c2 = R(o[1]); dt = rcross(a_, b_)
@@ -233,12 +346,29 @@ def job_gtx3(t):
         def ov(i, o):
             x, y = i; r = R(o[0])
             return [('unit', REq(rdot(r, r), 1)), ('orthogonal-to-y', REq(rdot(r, y), 0)), ('in-span', REq(rdet3(x, y, r), 0)), ('towards-x', RGoal('gt', rdot(r, x), 0))]
-        S.check_fn(U, 'ortho_v3_' + t, ov, lambda i: [rdot(i[1], i[1]) == 1, rdot(rcross(i[0], i[1]), rcross(i[0], i[1])) > 0], mode='real', timeout=tm, bounds='unit y, x not parallel to y')
+        C = Chain(S, 'ortho_v3_' + t, pre=lambda i: [rdot(i[1], i[1]) == 1, rdot(rcross(i[0], i[1]), rcross(i[0], i[1])) > 0], timeout=tm, bounds='unit y, x not parallel to y')
+        if C.res is not None:
+            x, y = C.i; r = R(C.o[0]); d = rdot(y, x); dd = d * d; w = [x[k] - y[k] * d for k in range(3)]; W = rdot(w, w); c_ = rcross(x, y); cc = rdot(c_, c_); yy = rdot(y, y); q = rdot(x, x) - dd
+            C.lemma('lagrange', W == cc + (1 - yy) * q)                               # |x - y (y.x)|^2 = |x cross y|^2 for unit y (polynomial identity, no hypotheses)
+            C.lemma('Wpos', W > 0, use=['lagrange'], hyps=C.pre, gen=[W, cc, yy, q])
+            sv = normalize_shape(C, 0, w, r, 'n', pos_use=['Wpos']); A, _, ax = C.sqrt_ax(0); outs = ['n.out%d' % k for k in range(3)]
+            rx = rdot(r, x); wx = rdot(w, x)
+            C.lemma('rx', rx * sv == wx, use=outs, gen=r + w)
+            C.lemma('wx', wx == W + dd * (1 - yy))
+            C.side(lambda kind, dsc, cond, k: dict(use=['n.arg', 'Wpos'], gen=[A, W]) if 'sqrt' in dsc else dict(use=['n.spos']))
+            C.goals(ov, {'unit': dict(use=['n.unit']),
+                         'towards-x': dict(use=['rx', 'wx', 'Wpos', 'n.spos'], hyps=C.pre[:1], gen=[rx, wx, W, dd, yy])})
         # triangleNormal
         def tn(i, o):
             p1, p2, p3 = i; r = R(o[0]); e1 = rsub(p2, p1); e2 = rsub(p3, p1)
             return [('unit', REq(rdot(r, r), 1)), ('orthogonal-to-edge12', REq(rdot(r, e1), 0)), ('orthogonal-to-edge13', REq(rdot(r, e2), 0)), ('right-handed', RGoal('gt', rdot(r, rcross(e1, e2)), 0))]
-        S.check_fn(U, 'trinormal_' + t, tn, lambda i: [rdot(rcross(rsub(i[1], i[0]), rsub(i[2], i[0])), rcross(rsub(i[1], i[0]), rsub(i[2], i[0]))) > 0], mode='real', timeout=tm, bounds='non-degenerate triangles')
+        C = Chain(S, 'trinormal_' + t, pre=lambda i: [rdot(rcross(rsub(i[1], i[0]), rsub(i[2], i[0])), rcross(rsub(i[1], i[0]), rsub(i[2], i[0]))) > 0], timeout=tm, bounds='non-degenerate triangles')
+        if C.res is not None:
+            p1, p2, p3 = C.i; r = R(C.o[0]); V = rcross(rsub(p2, p1), rsub(p3, p1)); VV = rdot(V, V)
+            sv = normalize_shape(C, 0, V, r, 'n', pos_hyps=C.pre); A = C.sqrt_ax(0)[0]
+            along(C, 'n', r, V, sv, V, 'rV')
+            C.side(lambda kind, dsc, cond, k: dict(use=['n.arg'], hyps=C.pre, gen=[A, VV]) if 'sqrt' in dsc else dict(use=['n.spos']))
+            C.goals(tn, {'unit': dict(use=['n.unit']), 'right-handed': dict(use=['rV', 'n.spos'], hyps=C.pre, gen=[rdot(r, V), VV])})
         # closestPointOnLine = a + clamp(dot(p-a, b-a)/|b-a|^2, 0, 1) (b-a)
         for nm, L in (('closest3_', 3), ('closest2_', 2)):
             def cp(i, o, L=L):
@@ -248,15 +378,79 @@ def job_gtx3(t):
                        mutant=lambda i, o: [('m', REq(o[0][0].r, i[1][0] + (rdot(rsub(i[0], i[1]), rsub(i[2], i[1])) / rdot(rsub(i[2], i[1]), rsub(i[2], i[1]))) * (i[2][0] - i[1][0])))])
     return run
 def job_ortho_m3(t):
+    """orthonormalize(mat3) = Gram-Schmidt on the columns.  One execution, ~70 small steps: per column k the shape r_k * s_k = u_k (u_k = m_k minus its components along the
+    earlier r_j, s_k = sqrt(u_k.u_k)), u_k.u_k > 0 from det(m) != 0 (Lagrange / Gram identities), then unit length, orthogonality, spans and orientations."""
     def run(S):
-        tm = S.cap(150, 400)
+        tm = S.cap(60, 200)
         def om(i, o):
             m = [i[0][0:3], i[0][3:6], i[0][6:9]]; r = [R(o[0][0:3]), R(o[0][3:6]), R(o[0][6:9])]
             g = [('unit%d' % k, REq(rdot(r[k], r[k]), 1)) for k in range(3)] + [('orthogonal%d%d' % (p, q), REq(rdot(r[p], r[q]), 0)) for p, q in pairs(3)]
             g += [('col0-parallel%d%d' % (p, q), REq(r[0][p] * m[0][q], r[0][q] * m[0][p])) for p, q in pairs(3)] + [('col0-direction', RGoal('gt', rdot(r[0], m[0]), 0))]
             g += [('col1-in-span', REq(rdet3(m[0], m[1], r[1]), 0)), ('col1-direction', RGoal('gt', rdot(r[1], m[1]), 0)), ('col2-direction', RGoal('gt', rdot(r[2], m[2]), 0))]
             return g
-        S.check_fn(U, 'ortho_m3_' + t, om, lambda i: [rdet3(i[0][0:3], i[0][3:6], i[0][6:9]) != 0], mode='real', timeout=tm, solver='qfnra', bounds='all real matrices with linearly independent columns', mandatory=False)
+        C = Chain(S, 'ortho_m3_' + t, pre=lambda i: [rdet3(i[0][0:3], i[0][3:6], i[0][6:9]) != 0], timeout=tm, bounds='all real matrices with linearly independent columns',
+                  witness_at=lambda i: [x == (1 if k in (0, 4, 8) else 0) for k, x in enumerate(i[0])])
+        if C.res is None: return
+        m0, m1, m2 = C.i[0][0:3], C.i[0][3:6], C.i[0][6:9]; o = R(C.o[0]); r0, r1, r2 = o[0:3], o[3:6], o[6:9]; det = rdet3(m0, m1, m2); L = C.lemma
+        if len(C.sq) != 3: C.goals(om); C.side(); return
+        # ---- column 0: r0 = m0 / |m0|
+        c12 = rcross(m1, m2); m0m0 = rdot(m0, m0)
+        L('det=m0.(m1xm2)', det == rdot(m0, c12))
+        L('m0pos', m0m0 > 0, use=['det=m0.(m1xm2)'], hyps=C.pre, gen=[det] + c12)
+        s0 = normalize_shape(C, 0, m0, r0, 'n0', pos_use=['m0pos'])
+        along(C, 'n0', r0, m0, s0, m0, 'r0.m0')
+        # ---- column 1: u1 = m1 - r0 (r0.m1)
+        e = rdot(r0, m1); u1 = [m1[k] - r0[k] * e for k in range(3)]; u1u1 = rdot(u1, u1); n0 = rdot(r0, r0); x1 = rcross(r0, m1); cm = rcross(m0, m1); q1 = rdot(m1, m1) - e * e
+        L('lagrange1', u1u1 == rdot(x1, x1) + (1 - n0) * q1, gen=r0)
+        for k in range(3): L('x1s%d' % k, x1[k] * s0 == cm[k], use=['n0.out%d' % j for j in range(3)], gen=r0)
+        L('det=(m0xm1).m2', det == rdot(cm, m2))
+        L('cmpos', rdot(cm, cm) > 0, use=['det=(m0xm1).m2'], hyps=C.pre, gen=[det] + cm)
+        L('x1pos', rdot(x1, x1) > 0, use=['x1s0', 'x1s1', 'x1s2', 'cmpos', 'n0.spos'], gen=x1 + cm)
+        L('u1pos', u1u1 > 0, use=['lagrange1', 'x1pos', 'n0.unit'], gen=[u1u1, rdot(x1, x1), n0, q1])
+        s1 = normalize_shape(C, 1, u1, r1, 'n1', pos_use=['u1pos'], gen=r0)
+        L('r0.u1', rdot(u1, r0) == e * (1 - n0), gen=r0)
+        along(C, 'n1', r1, u1, s1, r0, 'r0.r1*s1')
+        L('orth01', rdot(r1, r0) == 0, use=['r0.r1*s1', 'r0.u1', 'n0.unit', 'n1.spos'], gen=[rdot(r1, r0), rdot(u1, r0), e, n0])
+        along(C, 'n1', r1, u1, s1, m1, 'r1.m1*s1')
+        L('u1.m1', rdot(u1, m1) == u1u1 + e * e * (1 - n0), gen=r0)
+        d_r0 = rdet3(m0, m1, r0); d_r1 = rdet3(m0, m1, r1); d_u1 = rdet3(m0, m1, u1)
+        L('span-r0', d_r0 == 0, use=['n0.out0', 'n0.out1', 'n0.out2', 'n0.spos'], gen=r0)
+        L('span-u1', d_u1 == -e * d_r0, gen=r0)
+        L('span-r1*s1', d_r1 * s1 == d_u1, use=['n1.out0', 'n1.out1', 'n1.out2'], gen=r1 + u1)
+        # ---- column 2: u2 = m2 - (r0 (r0.m2) + r1 (r1.m2))
+        f = rdot(r0, m2); g = rdot(r1, m2); u2 = [m2[k] - (r0[k] * f + r1[k] * g) for k in range(3)]; u2u2 = rdot(u2, u2); n1 = rdot(r1, r1); p01 = rdot(r1, r0); m2m2 = rdot(m2, m2); gR = r0 + r1
+        corr = f * f * (n0 - 1) + g * g * (n1 - 1) + 2 * f * g * p01
+        L('expand2', u2u2 == m2m2 - f * f - g * g + corr, gen=gR)
+        D2 = rdet3(r0, r1, m2)
+        L('gram', D2 * D2 == n0 * (n1 * m2m2 - g * g) - p01 * (p01 * m2m2 - g * f) + f * (p01 * g - n1 * f), gen=gR)
+        Du = rdet3(r0, u1, m2); Dm = rdet3(r0, m1, m2)
+        L('D2*s1', D2 * s1 == Du, use=['n1.out0', 'n1.out1', 'n1.out2'], gen=r1 + u1 + r0)
+        L('Du=Dm', Du == Dm, gen=r0)
+        L('Dm*s0', Dm * s0 == det, use=['n0.out0', 'n0.out1', 'n0.out2'], gen=r0)
+        L('D2nz', D2 != 0, use=['D2*s1', 'Du=Dm', 'Dm*s0', 'n0.spos', 'n1.spos'], hyps=C.pre, gen=[D2, Du, Dm, det])
+        L('u2pos', u2u2 > 0, use=['expand2', 'gram', 'D2nz', 'n0.unit', 'n1.unit', 'orth01'], gen=[u2u2, D2, m2m2, n0, n1, p01, f, g])
+        s2 = normalize_shape(C, 2, u2, r2, 'n2', pos_use=['u2pos'], gen=gR)
+        L('r0.u2', rdot(u2, r0) == f - (n0 * f + p01 * g), gen=gR)
+        L('r1.u2', rdot(u2, r1) == g - (p01 * f + n1 * g), gen=gR)
+        along(C, 'n2', r2, u2, s2, r0, 'r0.r2*s2'); along(C, 'n2', r2, u2, s2, r1, 'r1.r2*s2'); along(C, 'n2', r2, u2, s2, m2, 'r2.m2*s2')
+        L('u2.m2', rdot(u2, m2) == u2u2 - corr, gen=gR)
+        L('orth02', rdot(r2, r0) == 0, use=['r0.r2*s2', 'r0.u2', 'n0.unit', 'orth01', 'n2.spos'], gen=[rdot(r2, r0), rdot(u2, r0), f, g, n0, p01])
+        L('orth12', rdot(r2, r1) == 0, use=['r1.r2*s2', 'r1.u2', 'n1.unit', 'orth01', 'n2.spos'], gen=[rdot(r2, r1), rdot(u2, r1), f, g, n1, p01])
+        A = [C.sqrt_ax(k)[0] for k in range(3)]; VV = [m0m0, u1u1, u2u2]; pos = ['m0pos', 'u1pos', 'u2pos']; cnt = {'sqrt': 0, 'div': 0}
+        def side_recipe(kind, dsc, cond, k):
+            key = 'sqrt' if 'sqrt' in dsc else 'div'; j = cnt[key]; cnt[key] += 1
+            if j > 2: return None
+            return dict(use=['n%d.arg' % j, pos[j]], gen=[A[j], VV[j]]) if key == 'sqrt' else dict(use=['n%d.spos' % j])
+        C.side(side_recipe)
+        rc = {'unit%d' % k: dict(use=['n%d.unit' % k]) for k in range(3)}
+        rc['orthogonal01'] = dict(use=['orth01'])
+        rc['orthogonal02'] = dict(use=['orth02']); rc['orthogonal12'] = dict(use=['orth12'])
+        for p_, q_ in pairs(3): rc['col0-parallel%d%d' % (p_, q_)] = dict(use=['n0.out%d' % p_, 'n0.out%d' % q_, 'n0.spos'], gen=r0)
+        rc['col0-direction'] = dict(use=['r0.m0', 'm0pos', 'n0.spos'], gen=[rdot(r0, m0), m0m0])
+        rc['col1-in-span'] = dict(use=['span-r0', 'span-u1', 'span-r1*s1', 'n1.spos'], gen=[d_r1, d_u1, d_r0, e])
+        rc['col1-direction'] = dict(use=['r1.m1*s1', 'u1.m1', 'u1pos', 'n0.unit', 'n1.spos'], gen=[rdot(r1, m1), rdot(u1, m1), u1u1, e, n0])
+        rc['col2-direction'] = dict(use=['r2.m2*s2', 'u2.m2', 'u2pos', 'n0.unit', 'n1.unit', 'orth01', 'n2.spos'], gen=[rdot(r2, m2), rdot(u2, m2), u2u2, f, g, n0, n1, p01])
+        C.goals(om, rc)
     return run
 
 # ------------------------------------------------------------------ bit-precise decisions of refract / faceforward
@@ -283,6 +477,26 @@ def _facts(c, val):
         for x in c.children(): out += _facts(x, val)
     return out
 def concrete(i): return all(z3.is_bv_value(x) or z3.is_rational_value(x) for row in i for x in row)
+SQRT_CONSTS = {}          # name -> (argument, constant) of every square root canon() has abstracted (keeps the argument alive: the name is its id)
+def sqrt_fact(t, c):
+    """true facts about c = sqrt(t) in the branch where canon() uses the constant (t not below zero); proved for all bit patterns as ieee-lemma.*.sqrt-facts.
+    Never needed for a proof - they keep the models of a FAILING query close to genuine ones (a constant with c = inf for t = 0 would not replay)"""
+    z = z3.FPVal(0.0, c.sort()); one = z3.FPVal(1.0, c.sort())
+    return z3.Implies(z3.Not(z3.fpLT(t, z)), z3.And(z3.fpIsNaN(c) == z3.fpIsNaN(t), z3.fpIsInf(c) == z3.fpIsInf(t), z3.Implies(z3.fpIsZero(t), c == t), z3.Or(z3.fpIsNaN(t), z3.fpGEQ(c, z)),
+                                                    z3.Implies(t == one, c == one), z3.Implies(z3.fpLT(t, one), z3.fpLEQ(c, one)), z3.Implies(z3.fpGT(t, one), z3.fpGEQ(c, one))))
+def abstract_arith(terms):
+    """generalisation: every maximal sub-term rooted at an IEEE arithmetic operation becomes a fresh constant (one per distinct term).  Valid generalised => valid."""
+    AR = (z3.Z3_OP_FPA_ADD, z3.Z3_OP_FPA_SUB, z3.Z3_OP_FPA_MUL, z3.Z3_OP_FPA_DIV, z3.Z3_OP_FPA_SQRT, z3.Z3_OP_FPA_FMA, z3.Z3_OP_FPA_REM)
+    tab = {}; seen = set()
+    def go(t):
+        k = t.get_id()
+        if k in seen: return
+        seen.add(k)
+        if z3.is_app(t) and t.decl().kind() in AR:
+            tab[k] = (t, z3.Const('arith!%d' % len(tab), t.sort())); return
+        for c_ in t.children(): go(c_)
+    for t in terms: go(t)
+    return [z3.substitute(t, *tab.values()) if tab else t for t in terms]
 def canon(e, abstract_sqrt=True):
     """Normal form of a formula over IEEE terms so that the compiled code and the transcribed formula meet syntactically (bit-blasting
     two commuted 53-bit multipliers against each other does not finish).  Every rewrite is an exact IEEE identity (proved as the
@@ -315,7 +529,8 @@ def canon(e, abstract_sqrt=True):
             elif dk == z3.Z3_OP_FPA_GE: r = go(z3.fpLEQ(ch[1], ch[0]))
             elif dk == z3.Z3_OP_FPA_SQRT and abstract_sqrt:
                 srt = ch[1].sort()
-                r = z3.If(go(z3.fpLT(ch[1], z3.FPVal(0.0, srt))), z3.fpNaN(srt), z3.Const('sqrt_of_%d' % ch[1].get_id(), srt))
+                cst = z3.Const('sqrt_of_%d' % ch[1].get_id(), srt); SQRT_CONSTS[cst.decl().name()] = (ch[1], cst)
+                r = z3.If(go(z3.fpLT(ch[1], z3.FPVal(0.0, srt))), z3.fpNaN(srt), cst)
             if r is None:
                 if dk in (z3.Z3_OP_FPA_MUL, z3.Z3_OP_FPA_ADD) and ch[1].get_id() > ch[2].get_id(): ch = [ch[0], ch[2], ch[1]]
                 r = t.decl()(*ch)
@@ -329,6 +544,7 @@ def job_lemmas(S):
         S.prove('c12.ieee-lemma.%s.mul-one' % t, val_eq(z3.fpMul(RNE, X, one), X), timeout=tm, kind='lemma', bounds='all x')
         S.prove('c12.ieee-lemma.%s.lt-as-not-leq' % t, z3.fpLT(X, Y) == z3.And(z3.Not(z3.fpIsNaN(X)), z3.Not(z3.fpIsNaN(Y)), z3.Not(z3.fpLEQ(Y, X))), timeout=tm, kind='lemma', bounds='all x, y')
         S.prove('c12.ieee-lemma.%s.sqrt-negative-is-nan' % t, z3.Implies(z3.fpLT(X, z), z3.fpIsNaN(z3.fpSqrt(RNE, X))), timeout=tm, kind='lemma', bounds='all x', mandatory=(w == 32))
+        S.prove('c12.ieee-lemma.%s.sqrt-facts' % t, sqrt_fact(X, z3.fpSqrt(RNE, X)), timeout=tm, kind='lemma', bounds='all x', mandatory=False)
 REGIONS = {'tir': lambda res, k: canon(z3.fpLT(fk(res.ins, res.ins[0][0].size())[0], FPV(0.0, res.ins[0][0].size())))}
 def knan(w): return lambda i: [canon(z3.Not(z3.fpIsNaN(fk(i, w)[0])))]
 def refract_fp_spec(L, w, split):
@@ -355,36 +571,104 @@ def signflip_spec(L, w):
         d = fdot([fpof(x) for x in i[2]], [fpof(x) for x in i[1]])
         return [('sign-flip%d' % j, canon(z3.Implies(z3.Not(z3.fpLT(d, FPV(0.0, w))), fpv_of(o[0][j]) == z3.fpNeg(fpof(i[0][j]))))) for j in range(L)]
     return spec
+def fp_check(S, fname, spec, pre=None, *, name, timeout, solver='z3', bounds='', slices=(), witness=True, side=True, validate=None, mutant=None):
+    """check_fn for bit-precise obligations, built for detection as much as for proof.  Per goal: (1) the query generalised over its arithmetic sub-terms
+    (decides in ms on the unchanged tree, where code and transcription meet syntactically); (2) the direct query; (3) if that times out, the direct query restricted
+    to sparse input SLICES (most components +0) in which a counterexample is small enough to be found - a model is a genuine counterexample of the unrestricted
+    obligation and is replayed natively like any other.  A restriction is never used to prove anything."""
+    SQRT_CONSTS.clear()
+    res = S.check_fn(U, fname, None, pre, timeout=timeout, solver=solver, name=name, bounds=bounds, witness=witness, side=side, validate=validate, mutant=mutant)
+    if res is None: return None
+    fn = U.fns[fname]; p = pre(res.ins) if pre else []
+    hyps = input_wellformed(fn, res.ins) + list(p if isinstance(p, (list, tuple)) else [p]) + res.axioms
+    goals = spec(res.ins, res.outs); facts = [sqrt_fact(t_, c_) for t_, c_ in SQRT_CONSTS.values()]; vars_ = [x for r_ in res.ins for x in r_]
+    fnlist = ['w_%s -> %s' % (fname, fn.body.strip().replace('\n', ' ')[:160])]; binfo = bounds + '; ll=' + U.ll_sha(); found = False
+    for label, g in goals:
+        oname = '%s.%s' % (name, label); rp = S._replayer(res, (spec, label), pre, U, fname, 'fp', oname)
+        def done(used, dt, how=''):
+            S.rec(name=oname, kind='spec', functions=fnlist, bounds=binfo + how, solver=used, result='unsat', time_s=round(dt, 3), status='discharged', mandatory=True)
+        ga = abstract_arith(hyps + [g])
+        r, m, dt, used = S.query(ga[:-1] + [z3.Not(ga[-1])], S.cap(10, 30), 'z3')
+        if r == 'unsat': done(used, dt, '; generalised over the arithmetic sub-terms'); continue
+        t1 = 5 if found else S.cap(30, 90)
+        r, m, dt, used = S.query(hyps + facts + [z3.Not(g)], t1, solver, vars_)
+        if r == 'unsat': done(used, dt); continue
+        hy = hyps + facts
+        if r == 'unknown':
+            for sn, sl in slices:
+                r2, m2, dt2, used2 = S.query(hy + sl(res.ins) + [z3.Not(g)], 5 if found else S.cap(10, 30), solver, vars_)
+                if r2 == 'sat': hy = hy + sl(res.ins); r = 'sat'; break
+        if r == 'sat':
+            nv = len(S.violations)
+            S.prove(oname, g, hy, timeout=t1, solver=solver, kind='spec', functions=fnlist, bounds=binfo, replay=rp, vars_=vars_)
+            found = found or len(S.violations) > nv
+        else:
+            S.rec(name=oname, kind='spec', functions=fnlist, bounds=binfo, solver=used, result='unknown', time_s=round(dt, 3), status='inconclusive', mandatory=True); S.inconclusive.append(oname)
+    return res
+def zero_tail(rows, keep=1):
+    """slice: all but the first `keep` components of the listed input vectors are +0"""
+    return lambda i: [x == 0 for r_ in rows for x in i[r_][keep:]]
+def refract_slices(L, w):
+    one = z3.BitVecVal(f32(1.0) if w == 32 else f64(1.0), w)
+    sl = [('N = 0, eta = 1', lambda i: [x == 0 for x in i[1]] + [i[2][0] == one]), ('vec1', zero_tail((0, 1)))]      # N = 0, eta = 1: k = 0 exactly and the formula gives I
+    if L >= 2:
+        axes = lambda i: [x == 0 for x in i[0][1:]] + [x == 0 for k_, x in enumerate(i[1]) if k_ != 1]      # I along x, N along y: dot(N,I) = 0
+        sl += [('orthogonal axes, eta = 1', lambda i: axes(i) + [i[2][0] == one]), ('orthogonal axes', axes), ('vec2', zero_tail((0, 1), 2))]
+    return sl
+def acos_args(t):
+    out = {}; st = [t]; seen = set()
+    while st:
+        x = st.pop()
+        if x.get_id() in seen: continue
+        seen.add(x.get_id())
+        if z3.is_app(x) and x.decl().kind() == z3.Z3_OP_UNINTERPRETED and x.decl().name().startswith('acos') and x.num_args() == 1: out[x.get_id()] = x.arg(0)
+        st.extend(x.children())
+    return list(out.values())
+def angle_fp_spec(w, dotf):
+    """the argument handed to acos is NaN (only when the IEEE dot product is) or lies in [-1, 1] - unit vectors whose dot product rounds above 1 must not
+    produce NaN.  On concrete replay (no term to inspect): a non-NaN dot product does not give a NaN angle (libm acos is NaN exactly outside [-1, 1])."""
+    def spec(i, o):
+        out = fpv_of(o[0][0]); one = FPV(1.0, w); mone = FPV(-1.0, w)
+        if concrete(i): return [('acos-argument-in-domain', z3.Or(z3.fpIsNaN(dotf(i)), z3.Not(z3.fpIsNaN(out))))]
+        args = acos_args(out)
+        if not args: return [('acos-argument-in-domain', z3.BoolVal(False))]
+        return [('acos-argument-in-domain', z3.And(*[z3.Or(z3.fpIsNaN(a_), z3.And(z3.fpLEQ(mone, a_), z3.fpLEQ(a_, one))) for a_ in args]))]
+    return spec
 def job_fp(t, L):
     c, w = FT[t]; s = '_v%d_%s' % (L, t)
     def run(S):
         tm = S.cap(90, 300); sv = 'cvc5' if w == 64 else 'z3'      # z3 does not find models of double-precision product chains; cvc5 does
-        res = S.check_fn(U, 'refract' + s, refract_fp_spec(L, w, False), knan(w), timeout=tm, solver=sv, witness=(w == 32), name='c12.refract%s.fp' % s, bounds='all bit patterns of I, N, eta for which the documented k is not NaN',
+        res = fp_check(S, 'refract' + s, refract_fp_spec(L, w, False), knan(w), timeout=tm, solver=sv, witness=(w == 32), name='c12.refract%s.fp' % s, bounds='all bit patterns of I, N, eta for which the documented k is not NaN', slices=refract_slices(L, w),
                          mutant=lambda i, o: [('m', z3.Implies(z3.fpLEQ(fk(i, w)[0], FPV(0.0, w)), fpv_of(o[0][0]) == FPV(0.0, w)))])
         if w == 64 and res is not None:
             S.prove('c12.refract%s.fp.witness' % s, z3.BoolVal(False), knan(w)(res.ins), timeout=S.cap(30, 60), solver='cvc5', kind='witness', expect='sat', mandatory=False, vars_=[x for r_ in res.ins for x in r_])
-        S.check_fn(U, 'faceforward' + s, faceforward_fp_spec(L, w), timeout=tm, solver=sv, name='c12.faceforward%s.fp' % s, bounds='all bit patterns (NaN, inf, +-0 included)',
+        fp_check(S, 'faceforward' + s, faceforward_fp_spec(L, w), timeout=tm, solver=sv, name='c12.faceforward%s.fp' % s, bounds='all bit patterns (NaN, inf, +-0 included)', slices=[('vec1', zero_tail((0, 1, 2)))],
                    mutant=lambda i, o: [('m', z3.If(z3.fpLEQ(fdot([fpof(x) for x in i[2]], [fpof(x) for x in i[1]]), FPV(0.0, w)), fpv_of(o[0][0]) == fpof(i[0][0]), val_eq(fpv_of(o[0][0]), z3.fpNeg(fpof(i[0][0])))))])
         if L <= 2:   # vec1/vec2 unary minus is a pure sign-bit flip (vec3/vec4 compute 0 - v: value-equal, sign of a zero component differs -> C01)
-            S.check_fn(U, 'faceforward' + s, signflip_spec(L, w), timeout=tm, solver=sv, name='c12.faceforward%s.fp-signflip' % s, side=False, witness=False, validate=0, bounds='all bit patterns (NaN payloads not compared)')
+            fp_check(S, 'faceforward' + s, signflip_spec(L, w), timeout=tm, solver=sv, name='c12.faceforward%s.fp-signflip' % s, side=False, witness=False, validate=0, bounds='all bit patterns (NaN payloads not compared)', slices=[('vec1', zero_tail((0, 1, 2)))])
+        fp_check(S, 'angle' + s, angle_fp_spec(w, lambda i: fdot([fpof(x) for x in i[0]], [fpof(x) for x in i[1]])), timeout=tm, solver=sv, name='c12.angle%s.fp' % s, bounds='all bit patterns', slices=[('vec1', zero_tail((0, 1)))])
     return run
 def job_fp_scalar(t):
     c, w = FT[t]
     def run(S):
         tm = S.cap(90, 300)
-        S.check_fn(U, 's_refract_' + t, refract_fp_spec(1, w, True), knan(w), timeout=tm, solver='cvc5', name='c12.s_refract_%s.fp' % t, known=['KF-C12-scalar-refract-nan'], bounds='all bit patterns for which the documented k is not NaN')
-        S.check_fn(U, 's_faceforward_' + t, faceforward_fp_spec(1, w), timeout=tm, name='c12.s_faceforward_%s.fp' % t, bounds='all bit patterns')
-        S.check_fn(U, 's_faceforward_' + t, signflip_spec(1, w), timeout=tm, name='c12.s_faceforward_%s.fp-signflip' % t, side=False, witness=False, validate=0, bounds='all bit patterns (NaN payloads not compared)')
+        sv = 'cvc5' if w == 64 else 'z3'
+        fp_check(S, 's_refract_' + t, refract_fp_spec(1, w, False), knan(w), timeout=tm, solver=sv, witness=(w == 32), slices=refract_slices(1, w), name='c12.s_refract_%s.fp' % t, bounds='all bit patterns for which the documented k is not NaN')
+        fp_check(S, 's_faceforward_' + t, faceforward_fp_spec(1, w), timeout=tm, solver=sv, name='c12.s_faceforward_%s.fp' % t, bounds='all bit patterns')
+        fp_check(S, 's_faceforward_' + t, signflip_spec(1, w), timeout=tm, solver=sv, name='c12.s_faceforward_%s.fp-signflip' % t, side=False, witness=False, validate=0, bounds='all bit patterns (NaN payloads not compared)')
         # scalar and vec1 overloads take the same decision on the same values
-        for f, hyp in (('faceforward', lambda i: []), ('refract', lambda i: knan(w)(i) + [canon(z3.fpGEQ(fk(i, w)[0], FPV(0.0, w)))])):
+        for f, hyp in (('faceforward', lambda i: []), ('refract', knan(w))):
             ins = mkvars(U.fns['s_%s_%s' % (f, t)])
             r1 = sym_call(U, 's_%s_%s' % (f, t), ins=ins); r2 = sym_call(U, '%s_v1_%s' % (f, t), ins=ins)
             S.prove('c12.%s_%s.scalar-vs-vec1' % (f, t), canon(same_float(r1.outs[0][0], r2.outs[0][0])), hyp(ins) + r1.axioms + r2.axioms, timeout=tm,
-                    functions=['s_%s_%s' % (f, t), '%s_v1_%s' % (f, t)], bounds='all bit patterns' + ('' if f == 'faceforward' else ' with k >= 0 (k < 0: see KF-C12-scalar-refract-nan)'))
+                    functions=['s_%s_%s' % (f, t), '%s_v1_%s' % (f, t)], bounds='all bit patterns' + ('' if f == 'faceforward' else ' for which the documented k is not NaN'))
         def rspec(i, o):
             I, N = fpof(i[0][0]), fpof(i[1][0])
             return [('formula', canon(same_float(o[0][0], z3.fpToIEEEBV(z3.fpSub(RNE, I, z3.fpMul(RNE, z3.fpMul(RNE, N, z3.fpMul(RNE, N, I)), FPV(2.0, w)))))))]
-        S.check_fn(U, 's_reflect_' + t, rspec, timeout=tm, name='c12.s_reflect_%s.fp' % t, bounds='all bit patterns; I - N*dot(N,I)*2 evaluated in IEEE')
+        fp_check(S, 's_reflect_' + t, rspec, timeout=tm, solver=sv, name='c12.s_reflect_%s.fp' % t, bounds='all bit patterns; I - N*dot(N,I)*2 evaluated in IEEE')
+        fp_check(S, 's_angle_' + t, angle_fp_spec(w, lambda i: z3.fpMul(RNE, fpof(i[0][0]), fpof(i[0][1]))), timeout=tm, solver=sv, name='c12.s_angle_%s.fp' % t, bounds='all bit patterns')
+        fp_check(S, 'oangle2_' + t, angle_fp_spec(w, lambda i: fdot([fpof(x) for x in i[0]], [fpof(x) for x in i[1]])), timeout=tm, solver=sv, name='c12.oangle2_%s.fp' % t, bounds='all bit patterns')
+        fp_check(S, 'oangle3_' + t, angle_fp_spec(w, lambda i: fdot([fpof(x) for x in i[0]], [fpof(x) for x in i[1]])), timeout=tm, solver=sv, name='c12.oangle3_%s.fp' % t, bounds='all bit patterns')
     return run
 
 def jobs(tier):
